@@ -503,7 +503,7 @@ def rule_M8(m, rep, rid='M8'):
     if not ok_e or not err_e:
         rep.bad(rid, 'flush-result-examined', body.where(fbi), 'result of BufWriter::flush is not examined')
         return
-    pre = [(b, i) for b, i, v in stores if fbi in reach(body, [b]) and b != fbi]
+    pre = [(b, i) for b, i, v in stores if fbi in reach(body, [b])]      # includes statements of the call's own block
     err_r = reach(body, err_e)
     on_err = [(b, i) for b, i, v in stores if b in err_r]
     rep.ob(rid, 'no-reset-before-or-on-failure', not pre and not on_err, body.where(fbi),
